@@ -406,7 +406,37 @@ def check_r09b(repo, rep, uni):
             nxt = cur.orelse
             cur = nxt[0] if len(nxt) == 1 and isinstance(nxt[0], ast.If) \
                 else None
-    rep.floor('finaliser container branches', n, 4)
+    # the same question asked of the converter as a whole: interpreted on
+    # every mutable container kind (under every option valuation), it must
+    # never hand back the object it was given
+    from sa import shapes
+    facts = shapes.Facts(repo)
+    m = 0
+    for kind in ('list', 'dict', 'set', 'deque', 'generator'):
+        for t in (True, False):
+            for s_ in (True, False):
+                it = shapes.Interp(repo, fi, facts, {
+                    'yaql.convertTuplesToLists': t,
+                    'yaql.convertSetsToLists': s_})
+                inner = shapes.Shape('list', [shapes.Shape('int')])
+                sh = shapes.Shape(kind, [shapes.Shape('str'), inner]
+                                  if kind == 'dict' else [inner])
+                try:
+                    it.convert(sh)
+                except shapes.Error:
+                    continue
+                m += 1
+                mutable = [k for k in it.passthrough
+                           if k in ('list', 'dict', 'set', 'deque',
+                                    'generator')]
+                rep.ob('R09b', '%s/fresh[%s,T=%d,S=%d]' % (
+                    fi.key, kind, t, s_), not mutable,
+                    'the finaliser returns a %s it was given as it is '
+                    '(options T=%s S=%s): the result would alias the '
+                    'evaluated (host) data' % (
+                        mutable[0] if mutable else '', t, s_),
+                    loc=mod.loc(fi.node))
+    rep.floor('finaliser scenarios on mutable containers', m, 12)
 
 
 def check_r09c(repo, rep, uni):
